@@ -116,7 +116,10 @@ def run(ctx):
             # the remainder starts right after the allocated part; the following segment's back link shrinks by the allocated size
             ok2 = ('+ %s' % 'nb_units') in seg or repr(want) in repr(aff.norm(_tid_of(seg)))
             nxt = [k for k in mem_end if k.endswith('->nb_prev') and k != '%s->nb_prev' % seg]
-            has_next = any(a.s.startswith('SEGMENT_AT_TID') and t for a, t, _ in pi.assumes())
+            nxt_tests = [t for a, t, _ in pi.assumes() if a.s.startswith('SEGMENT_AT_TID') and ('%s->nb_units' % cur.s) in a.s]
+            if not nxt_tests:
+                re_.bad('malloc:split-next-prev', pushes[0][0].loc, 'split: the segment following the allocated one is never looked at, its nb_prev back link is not maintained')
+            has_next = any(nxt_tests)
             if has_next:
                 okn = len(nxt) == 1 and aff.norm(mem_end[nxt[0]]) == aff.Poly.atom(nxt[0]) - want
                 re_.expect(okn, 'malloc:split-next-prev', pushes[0][0].loc, 'split: the following segment\'s nb_prev must shrink by the allocated size', note='split: next.nb_prev -= allocated')
